@@ -55,16 +55,17 @@ theorem exForm_unchecked : uncheckedPairs [] exForm = [(s "f_c", []), (s "f_l_1_
 /-- the rendered form: 15 control groups (13 inputs / textarea / button, two `<select>`s with two options each) -/
 example : (renderForm [] exForm).length = 15 := by decide
 
-/-- so a browser submits exactly those twelve pairs for the form rendered by `Generator()` -/
+/-- so a browser submits exactly those twelve pairs for the form rendered by `Generator()`, submitted
+    through its one button -/
 theorem exForm_posts :
-    browserPost (seenOf Tables.current freshGen.ctx) (renderForm [] exForm) = .ok (formPairs [] exForm) :=
-  form_roundtrip_fresh exForm exForm_ok
+    browserSubmit (seenOf Tables.current freshGen.ctx) (some 0) (renderForm [] exForm) = .ok (formPairs [] exForm) :=
+  form_roundtrip_fresh exForm exForm_ok (by decide)
 
 /-- the same with every tag call made through `prepareTag`, as the runner makes them -/
 theorem exForm_posts_generator :
-    browserPost (seenVia Tables.current Flatland.Generated.C11.staticAttributeOrder freshGen) (renderForm [] exForm) =
-      .ok (formPairs [] exForm) :=
-  form_roundtrip_fresh_generator exForm exForm_ok
+    browserSubmit (seenVia Tables.current Flatland.Generated.C11.staticAttributeOrder freshGen) (some 0)
+      (renderForm [] exForm) = .ok (formPairs [] exForm) :=
+  form_roundtrip_fresh_generator exForm exForm_ok (by decide)
 
 /-- and `flatten()` of the same tree emits those twelve plus the two `''` pairs of the unchecked boxes -/
 theorem exForm_flatten :
@@ -79,5 +80,42 @@ example : textLikeTy none = true ∧ textLikeTy (some []) = true ∧ textLikeTy 
     textLikeTy (some (s "email")) = true := by decide
 /-- a type the library and a browser read differently (KELVIN SIGN lower-cases to `k`) is excluded -/
 example : checkTy ['c', 'h', 'e', 'c', Char.ofNat 0x212A, 'b', 'o', 'x'] = false := by decide
+
+/-- controls whose `value` a browser never posts are not text-like: such a leaf is outside `formOk` -/
+example : textLikeTy (some (s "reset")) = false ∧ textLikeTy (some (s "Button")) = false ∧
+    textLikeTy (some (s "submit")) = true := by decide
+
+/-- SUBMITTERS.  The example form has exactly one (its button); a form with a button and a submit
+    input has two: only the activated one would post, so it is outside `oneSubmitter` and the
+    whole-form theorems say nothing about it. -/
+example : submitters exForm = 1 ∧ oneSubmitter exForm = true := by decide
+def exTwoSubmitters : FormTree :=
+  .dict (some (s "f")) [.text (some (s "k")) (s "go") .button [],
+                        .text (some (s "z")) (s "send") (.input (some (s "Submit"))) []]
+example : formOk Tables.current [] exTwoSubmitters = true ∧ oneSubmitter exTwoSubmitters = false := by decide
+/-- … and submitted without pressing either, neither leaf is posted (`form_unpressed`) -/
+theorem exTwoSubmitters_unpressed :
+    browserSubmit (seenVia Tables.current Flatland.Generated.C11.staticAttributeOrder freshGen) none
+      (renderForm [] exTwoSubmitters) = .ok [] :=
+  form_unpressed exTwoSubmitters (by decide)
+/-- the example form submitted with Enter instead of its button: everything but the button's pair -/
+theorem exForm_quiet : quietPairs [] exForm =
+    [(s "f_a", s "hello"), (s "f_b", s "1"),
+     (s "f_l_0_x", s "1 & <2>"), (s "f_l_0_b", s "yes"), (s "f_l_1_x", s "2"),
+     (s "f_arr", s "p"), (s "f_arr", s "q r"), (s "f_m", s " p"), (s "f_m", s " p"),
+     (s "f_s", s "v1"), (s "f_j", s "a,b")] := by
+  simp only [exForm, quietPairs, quietFieldPairs, quietSlotPairs, formPairs, slotName, Nat.reduceAdd, natStr0, natStr1]
+  decide
+theorem exForm_unpressed :
+    browserSubmit (seenVia Tables.current Flatland.Generated.C11.staticAttributeOrder freshGen) none
+      (renderForm [] exForm) = .ok (quietPairs [] exForm) :=
+  form_unpressed exForm exForm_ok
+/-- the browser rule on single controls: which ones post at all, and which are submitters -/
+example : submitted sInput [(sType, s "reset"), (sName, s "n"), (sValue, s "v")] [] = none ∧
+    submitted sInput [(sType, s "FILE"), (sName, s "n"), (sValue, s "v")] [] = none ∧
+    submitted (s "button") [(sType, s "reset"), (sName, s "n"), (sValue, s "v")] [] = none ∧
+    submitted (s "button") [(sName, s "n"), (sValue, s "v")] [] = some (s "n", s "v") ∧
+    isSubmitter (s "button") [(sName, s "n")] = true ∧
+    isSubmitter sInput [(sType, s "SUBMIT")] = true ∧ isSubmitter sInput [(sType, s "text")] = false := by decide
 
 end Flatland.C12.Proofs
